@@ -413,7 +413,7 @@ func c34Trace(h *H, rec *RecBackend) {
 }
 
 func streamC34(h *H) {
-	n := h.N(24, 480)
+	n := h.N(24, 240)
 	var base BeState
 	for i := 0; i < n; i++ {
 		if i%6 == 0 {
